@@ -748,3 +748,35 @@ N('send-input-ack-helper-renamed-local', ALL, PROTO,
 N('disconnect-frame-min-via-cmp', ALL, P2P,
   "                    if self.disconnect_frame == NULL_FRAME || last_frame + 1 < self.disconnect_frame {\n                        self.disconnect_frame = last_frame + 1;\n                    }",
   "                    let candidate = last_frame + 1;\n                    if self.disconnect_frame == NULL_FRAME || self.disconnect_frame > candidate {\n                        self.disconnect_frame = candidate;\n                    }", 'min-merge with a temporary and flipped comparison')
+N('confirmed-frame-as-iterator-min', ALL, P2P,
+  """        let mut confirmed_frame = i32::MAX;
+
+        for con_stat in &self.local_connect_status {
+            if !con_stat.disconnected {
+                confirmed_frame = std::cmp::min(confirmed_frame, con_stat.last_frame);
+            }
+        }
+""", """        let confirmed_frame = self
+            .local_connect_status
+            .iter()
+            .filter(|con_stat| !con_stat.disconnected)
+            .map(|con_stat| con_stat.last_frame)
+            .min()
+            .unwrap_or(i32::MAX);
+""", 'min over connected players written with iterators')
+N('check-consistency-as-iterator-min', ALL, SL,
+  """        for handle in 0..self.num_players {
+            let incorrect = self.input_queues[handle].first_incorrect_frame();
+            if incorrect != NULL_FRAME
+                && (first_incorrect == NULL_FRAME || incorrect < first_incorrect)
+            {
+                first_incorrect = incorrect;
+            }
+        }
+        first_incorrect""", """        self.input_queues
+            .iter()
+            .map(|q| q.first_incorrect_frame())
+            .chain(std::iter::once(first_incorrect))
+            .filter(|&f| f != NULL_FRAME)
+            .min()
+            .unwrap_or(NULL_FRAME)""", 'NULL-aware minimum including the pending disconnect frame, written with iterators')
